@@ -8,8 +8,133 @@ import traceback
 from . import loader, report
 
 
+def _digest(repo):
+    import hashlib
+    h = hashlib.sha256()
+    for rel in sorted(repo.sha):
+        h.update(rel.encode())
+        h.update(repo.sha[rel].encode())
+    for rel in sorted(repo.overrides):
+        h.update(rel.encode())
+        h.update(hashlib.sha256(repo.overrides[rel].encode()).digest())
+    # the checker itself
+    here = os.path.dirname(os.path.abspath(__file__))
+    for root, dirs, files in sorted(os.walk(here)):
+        dirs.sort()
+        for f in sorted(files):
+            if f.endswith(('.py', '.json')):
+                with open(os.path.join(root, f), 'rb') as fh:
+                    h.update(hashlib.sha256(fh.read()).digest())
+    # library files read by rules outside the parsed python sources
+    lib = os.path.join(repo.root, 'chi', 'library', 'model_library')
+    if os.path.isdir(lib):
+        for f in sorted(os.listdir(lib)):
+            if f.endswith('.xml'):
+                with open(os.path.join(lib, f), 'rb') as fh:
+                    h.update(hashlib.sha256(fh.read()).digest())
+    return h.hexdigest()[:32]
+
+
+def pooled_findings(repo):
+    """Findings of *every* rule on this tree (each rule once, unscoped);
+    cached by digest of the sources and of the checker under /verif/.cache
+    (an optimisation only: a missing cache is recomputed)."""
+    from . import props
+    from .rules import lint, cursors
+    cache_dir = os.path.join(report.VERIF, '.cache')
+    path = os.path.join(cache_dir, 'pool-%s.json' % _digest(repo))
+    if os.path.exists(path):
+        try:
+            with open(path) as f:
+                return json.load(f)
+        except (OSError, ValueError):
+            pass
+    rules = {}
+    for pid in sorted(props.PROPS):
+        for r in props.PROPS[pid]['quick']:
+            name = r.__name__
+            if name.startswith('r00_') or name.startswith('r05_4_'):
+                continue
+            rules.setdefault((getattr(r, '__module__', ''), name), r)
+    rules[('lint', 'r00')] = lint.r00
+    rules[('cursors', 'r05_4')] = cursors.r05_4
+    ctx = report.Ctx('POOL', 'quick', quiet=True)
+    for key in sorted(rules):
+        try:
+            rules[key](ctx, repo)
+        except Exception:       # a rule that cannot run contributes nothing
+            pass
+    out = []
+    seen = set()
+    for f in ctx.findings:
+        k = (f['rule'], f['construct'], f['key'])
+        if k in seen:
+            continue
+        seen.add(k)
+        out.append({kk: f[kk] for kk in ('rule', 'where', 'construct', 'key',
+                                         'msg') if kk in f})
+    try:
+        os.makedirs(cache_dir, exist_ok=True)
+        tmp = path + '.%d' % os.getpid()
+        with open(tmp, 'w') as f:
+            json.dump(out, f)
+        os.replace(tmp, path)
+        # keep the cache small
+        olds = sorted((os.path.getmtime(os.path.join(cache_dir, x)), x)
+                      for x in os.listdir(cache_dir))
+        for _, x in olds[:-40]:
+            os.remove(os.path.join(cache_dir, x))
+    except OSError:
+        pass
+    return out
+
+
+def _construct_fn(construct):
+    import re
+    m = re.match(r'^([A-Za-z_]\w*)\.([A-Za-z_]\w*)', construct)
+    if m:
+        return (m.group(1), m.group(2))
+    m = re.match(r'^([a-z_]\w*)$', construct)
+    if m:
+        return ('', m.group(1))
+    return None
+
+
+def attribute_pooled(pid, ctx, repo):
+    """Add the findings of rules that are not this property's own when the
+    construct they name is executed by the property's observation points."""
+    from . import props
+    from .reach import CallGraph
+    spec = props.ENTRY.get(pid)
+    if not spec:
+        return
+    G = CallGraph(repo)
+    reach = G.reachable(G.entries(spec))
+    # a method found on a class also covers the definition it resolves to
+    have = {(f['rule'], f['construct'], f['key']) for f in ctx.findings}
+    for f in pooled_findings(repo):
+        k = (f['rule'], f['construct'], f['key'])
+        if k in have:
+            continue
+        fn = _construct_fn(f['construct'])
+        if fn is None:
+            continue
+        cands = {fn}
+        if fn[0] and repo.has_cls(fn[0]):
+            d, node = repo.resolve(fn[0], fn[1])
+            if node is not None:
+                cands.add((d, fn[1]))
+        if not (cands & reach):
+            continue
+        have.add(k)
+        ctx.violation(
+            f['rule'], f['where'], f['construct'], f['key'],
+            f['msg'] + ' [attributed to %s: this code is executed by the '
+            'property\'s observation points]' % pid, pooled=True)
+
+
 def run_property(pid, tier, repo=None, write=True, quiet=False,
-                 selftest=True):
+                 selftest=True, pooled=True):
     from . import props
     spec = props.PROPS[pid]
     ctx = report.Ctx(pid, tier, quiet=quiet)
@@ -38,6 +163,12 @@ def run_property(pid, tier, repo=None, write=True, quiet=False,
                           os.path.basename(tb.filename), tb.lineno))
             if os.environ.get('CHK_DEBUG'):
                 traceback.print_exc()
+    try:
+        if pooled:
+            attribute_pooled(pid, ctx, repo)
+    except Exception as e:
+        ctx.note('attribution', 'cross-attribution not available: %s: %s' % (
+            type(e).__name__, e))
     if tier == 'thorough' and selftest and write:
         from . import mutants
         try:
